@@ -284,7 +284,7 @@ def main():
         hooks=dict(guard="MICM_VERIF_HOOKS",
                    enable="harness drivers are compiled with -DMICM_VERIF_HOOKS against /repo/include (header-only library)",
                    baseline_off_cmd="/verif/tools/baseline_off.sh",
-                   source_commits=[], add_only=True),
+                   source_commits=["6a748b8"], add_only=True),
         engines=[dict(name="coq-model-tie", path="tools/check.py",
                       serves_properties=[c["property_id"] for c in checks],
                       kind_free_text="Coq 8.16 theorems over a hand-written executable Gallina model; model extracted to OCaml "
